@@ -841,6 +841,27 @@ def prog_multi(seed: int, n_ops: int = 8, *, three: float = 0.3, prefs: float = 
         other = g.leaf(e_src, cols=other_cols)
         for bt, tr in ((True, True), (True, False)):
             observed.append(g.join(cur, other, None, bt=bt, tr=tr))
+    elif sc < 0.82:
+        # scenario: a column is used (selection), projected away and then RE-CREATED by a calculation of
+        # the same name; a projection onto it is preferred in the source engine (back-tracking widens
+        # projections on the way down and must not leak the old column past the projection that dropped it)
+        src_e, mid = ("e1", "e2") if ("e2" in engines and rng.random() < 0.7) else (rng.choice(engines), None)
+        if mid is None:
+            mid = rng.choice([e for e in engines if e != src_e])
+        cs = sorted(rng.sample(["a", "b", "c", "d"], rng.choice([2, 3])))
+        src = g.leaf(src_e, cols=cs)
+        cur = g.transfer(src, mid)
+        dropped = rng.choice(cs)
+        kept = [c for c in cs if c != dropped]
+        cur = g.apply(cur, ["sel", ["pfn", rng.choice(["gt", "ge", "ne"]), "*", ["ref", dropped], ["lit", rng.choice([0, 1])]]],
+                      g.cols[cur])
+        cur = g.apply(cur, ["proj", *kept], frozenset(kept))
+        cur = g.apply(cur, ["calc", dropped, ["fn", "add", "*", ["ref", kept[0]], ["lit", rng.choice([0, 1])]]],
+                      frozenset(kept) | {dropped})
+        want = sorted({dropped} | set(rng.sample(kept, rng.choice([0, 1]))))
+        plain = g.apply(cur, ["proj", *want], frozenset(want))
+        pr = g.apply(cur, ["proj", *want], frozenset(want), g.opts(src_e, True, rng.random() < 0.4, False))
+        observed += [plain, pr]
     for _ in range(n_ops):
         k = rng.random()
         t = g.pick()
